@@ -12,7 +12,9 @@ pub const NUMS: &[f64] = &[0.0, -0.0, 1.0, -1.0, 0.5, -0.5, 2.5, -2.5, 3.0, -3.0
     -9223372036854775808.0, 9223372036854775808.0, 2147483648.0, -2147483648.0, 2147483647.0, 4294967295.0, 18446744073709551616.0, -2147483649.0];
 pub const STRS: &[&str] = &["", "a", "abc", "9", "10", "9.5", "-0", "1e3", " 1", "nan", "NaN", "inf", "-inf", "+1", ".5", "5.", "1.",
     "0x10", "1_0", "ä", "äb", "z", "A", "true", "1e400", "1e-400", "0.1", "00", "-", "+", ".", "e5", "1e", "1e+", "infinity",
-    "Infinity", "INF", "1.5e-3", "١", "0", "1", "false", "a'b", "{x}", "//", "aaa", "aa", "äöü", "e\u{301}", "𝄞x", " ", "\n", "Hello World"];
+    "Infinity", "INF", "1.5e-3", "١", "0", "1", "false", "a'b", "{x}", "//", "aaa", "aa", "äöü", "e\u{301}", "𝄞x", " ", "\n", "Hello World",
+    // line breaks of every convention INSIDE a text (a literal spanning a Windows line break): CR LF, LF CR, lone CR, doubled
+    "a\r\nb", "\r\n", "\n\r", "x\r\n\r\ny\r", "\r", "+inf", "-Infinity"];
 
 pub fn gen_num(r: &mut Rng) -> f64 {
     match r.below(5) {
